@@ -159,3 +159,123 @@ def run_blocks(case):
         if len(b) != bs or len(blocks) > limit:
             break
     return {"blocks": blocks}
+
+
+# --------------------------------------------------------------------------- lifecycle (C20)
+def _lifecycle_server():
+    from vinegar.tftp.server import TftpServer, TftpRequestHandler, TftpError
+    from vinegar.tftp.protocol import ErrorCode
+    served = []
+
+    class H(TftpRequestHandler):
+        def can_handle(self, filename, context):
+            return True
+
+        def handle(self, filename, client_address, server_address, context):
+            served.append(filename)
+            raise TftpError("done", ErrorCode.FILE_NOT_FOUND)
+
+    return TftpServer([H()], "::", 69, default_timeout=1.0, max_timeout=5, max_retries=1), served
+
+
+def _observe(w):
+    """(request-port thread alive, listening socket open) of the most recent start()"""
+    main_threads = [t for t in w.threads if getattr(t, "_target", None) is not None
+                    and getattr(t._target, "__name__", "") == "_run"
+                    and type(getattr(t._target, "__self__", None)).__name__ == "TftpServer"]
+    # Thread._target is deleted when the thread ends; fall back to the registry kept below
+    alive = any(t.is_alive() for t in w.lifecycle_threads)
+    sock_open = any(not s._closed for s in w.main_sockets)
+    return alive, sock_open
+
+
+def run_lifecycle(case):
+    setup()
+    import threading
+    import random as _random
+    w = sim_net.new_world()
+    w.lifecycle_threads = []
+    # remember request-port threads as they are created (Thread objects created while start() runs)
+    server, served = _lifecycle_server()
+    errors = []
+
+    def do(op, log):
+        n_before = len(w.threads)
+        try:
+            if op == "start":
+                server.start()
+            elif op == "stop":
+                server.stop()
+            elif op == "request":
+                open_socks = [s for s in w.main_sockets if not s._closed]
+                ok = False
+                if open_socks:
+                    before = len(served)
+                    s = open_socks[-1]
+                    delivered = getattr(s, "_delivered", 0)
+                    s.push(b"\x00\x01f\x00octet\x00", sim_net.CLIENT_ADDR, None)
+                    try:
+                        s.wait_processed(delivered + 1, real_timeout=5.0)
+                    except sim_net.InfraError:
+                        pass
+                    for th in list(w.threads):
+                        if th not in w.lifecycle_threads and th.ident is not None:
+                            th.join(10.0)
+                    ok = len(served) > before
+                log.append(["request", ok])
+                return
+        except Exception as e:   # lifecycle calls must never raise
+            errors.append([op, repr(e)])
+        finally:
+            with w.lock:
+                for th in w.threads[n_before:]:
+                    if getattr(th, "_target", None) is not None and getattr(th._target, "__name__", "") == "_run" \
+                            and type(getattr(th._target, "__self__", None)).__name__ == "TftpServer":
+                        w.lifecycle_threads.append(th)
+        alive, sock_open = _observe(w)
+        log.append([op, alive, sock_open])
+
+    obs = {}
+    if case["kind"] == "lifecycle_seq":
+        log = []
+        for op in case["ops"]:
+            do(op, log)
+        obs["steps"] = log
+    else:
+        rnd = _random.Random(case.get("seed", 0))
+        plans = case["threads"]
+        barrier = threading.Barrier(len(plans))
+        logs = [[] for _ in plans]
+        delays = [[rnd.choice([0, 0, 0.0005, 0.002]) for _ in p] for p in plans]
+
+        def worker(i):
+            barrier.wait()
+            for op, d in zip(plans[i], delays[i]):
+                if d:
+                    sim_net._real_sleep(d)
+                do(op, logs[i])
+
+        ths = [sim_net._RealThread(target=worker, args=(i,), daemon=True) for i in range(len(plans))]
+        for t in ths:
+            t.start()
+        hung = False
+        for t in ths:
+            t.join(30.0)
+            hung = hung or t.is_alive()
+        obs["hung"] = hung
+        alive, sock_open = _observe(w)
+        obs["final"] = {"running": bool(server._running), "shutdown_requested": bool(server._shutdown_requested),
+                        "thread_alive": alive, "socket_open": sock_open}
+        # afterwards the object must still be usable: a quiescent stop releases, a start serves
+        log = []
+        if not hung:
+            for op in ("stop", "start", "request", "stop"):
+                do(op, log)
+        obs["after"] = log
+    obs["errors"] = errors
+    obs["exc"] = w.exc_records[:3]
+    try:
+        server.stop()
+    except Exception:
+        pass
+    return obs
